@@ -46,7 +46,16 @@ func agree(res ref.Result, a, b mon.Observed) bool {
 }
 
 func parseOutcome(p *jmespath.Parser, e string) string {
+	out, _, _ := parseOutcomeAST(p, e)
+	return out
+}
+
+// parseOutcomeAST also hands out the syntax tree of a successful parse, so that the caller can look at
+// it again after the Parser has been used for something else.
+func parseOutcomeAST(p *jmespath.Parser, e string) (string, jmespath.ASTNode, bool) {
 	var out string
+	var kept jmespath.ASTNode
+	ok := false
 	o := mon.Guard(func() (interface{}, error) {
 		ast, err := p.Parse(e)
 		if err != nil {
@@ -58,17 +67,18 @@ func parseOutcome(p *jmespath.Parser, e string) string {
 			return nil, nil
 		}
 		out = jmespath.VerifSexpr(ast)
+		kept, ok = ast, true
 		return nil, nil
 	})
 	if o.Panicked {
-		return "PANIC " + o.Panic
+		return "PANIC " + o.Panic, kept, false
 	}
-	return out
+	return out, kept, ok
 }
 
 func c13(r *mon.Run) {
 	r.Rule = "search histories: for each seeded expression (all fragments, weighted towards functions fed with literals and raw strings; plus the literal-fed function matrix) one compiled expression answers a history of 8-40 calls mixing documents on which it succeeds, documents on which it fails, and repetitions of earlier documents (every document a fresh deep copy); every response must equal (up to allowed member order) the response of a freshly compiled expression and of the one-shot Search for the same document, and the compiled AST (hook) must be unchanged after every call. " +
-		"struct-document histories: 114 navigational expressions, each compiled once and run over 6-25 Go-struct documents of the embedding family (same types with nil and non-nil embedded pointers in changing order, as roots, in typed slices, in maps), every answer compared with a fresh compile and the one-shot Search on an identical document. long search histories: 3000 calls on one compiled expression over 6 documents. parser histories: one Parser parses sequences of 5-50 valid, ungrammatical and unlexable expressions interleaved; each result (AST, or error type, text, offset and expression) must equal that of a fresh Parser; plus histories of 1500 parses dominated by one failing expression. Non-trivial = distinct histories containing a failing call followed by a succeeding one and a repeated document; parser histories containing a failure followed by a success."
+		"struct-document histories: 114 navigational expressions, each compiled once and run over 6-25 Go-struct documents of the embedding family (same types with nil and non-nil embedded pointers in changing order, as roots, in typed slices, in maps), every answer compared with a fresh compile and the one-shot Search on an identical document. long search histories: 3000 calls on one compiled expression over 6 documents. parser histories: one Parser parses sequences of 5-50 valid, ungrammatical and unlexable expressions interleaved; each result (AST, or error type, text, offset and expression) must equal that of a fresh Parser, and every syntax tree handed out earlier is rendered again later in the history and must not have changed; plus histories of 1500 parses dominated by one failing expression. Non-trivial = distinct histories containing a failing call followed by a succeeding one and a repeated document; parser histories containing a failure followed by a success."
 	r.Floor = 200
 	r.Assumptions = []string{"documents handed to the three call paths are separate deep copies, so document mutation (C06) cannot masquerade as history dependence"}
 	base := c06BaseDoc()
@@ -190,6 +200,8 @@ func c13(r *mon.Run) {
 			n := 5 + rng.Intn(46)
 			sawFail, failThenOK := false, false
 			var seq []string
+			var keptASTs []jmespath.ASTNode
+			var keptSexprs, keptExprs []string
 			for k := 0; k < n; k++ {
 				var e string
 				switch rng.Intn(4) {
@@ -204,7 +216,24 @@ func c13(r *mon.Run) {
 				}
 				seq = append(seq, e)
 				t.Eval()
-				got := parseOutcome(p, e)
+				got, ast, parsed := parseOutcomeAST(p, e)
+				if parsed {
+					keptASTs = append(keptASTs, ast)
+					keptSexprs = append(keptSexprs, got)
+					keptExprs = append(keptExprs, e)
+				}
+				// syntax trees handed out earlier belong to the caller: later use of the Parser must not change them
+				if k == n-1 || k%7 == 6 {
+					for q, a := range keptASTs {
+						if now := jmespath.VerifSexpr(a); now != keptSexprs[q] {
+							r.Violate(&mon.Violation{Workload: "parser-histories", Index: i, API: "(*Parser).Parse", Expr: keptExprs[q],
+								Expected: "the syntax tree returned for this expression stays what it was: " + keptSexprs[q], Observed: now,
+								Detail: fmt.Sprintf("after the same Parser went on to parse %q", seq), Class: "earlier syntax tree changed by a later Parse"})
+							return
+						}
+					}
+					t.Count("re-inspections of earlier syntax trees")
+				}
 				want := parseOutcome(jmespath.NewParser(), e)
 				if got != want {
 					r.Violate(&mon.Violation{Workload: "parser-histories", Index: i, API: "(*Parser).Parse", Expr: e, Expected: "a reused Parser behaves like a fresh one: " + want, Observed: got,
@@ -337,11 +366,29 @@ func c13(r *mon.Run) {
 	// long search histories: 3000 calls on one compiled expression over 6 documents (a counter that wraps, a
 	// buffer that grows, a limit that is hit, "every n-th call"): every answer equals the first answer for
 	// that document, which is checked against a fresh compile
+	wideDoc := c06BaseDoc()
+	{
+		w := make([]interface{}, 400)
+		for k := range w {
+			w[k] = map[string]interface{}{"n": float64(k % 7), "i": float64(k), "l": []interface{}{float64(k)}}
+		}
+		wideDoc["wide"] = w
+	}
+	wd := func() *gen.Expr { return gen.Field("wide") }
+	wideExprs := []*gen.Expr{
+		gen.Chain(wd(), gen.StListStar(), gen.StField("n")), gen.Chain(wd(), gen.StFilter(gen.Cmp(">", gen.Field("n"), gen.LitJSON("1"))), gen.StField("i")), gen.Chain(wd(), gen.StFlatten(), gen.StField("i")),
+		gen.Chain(wd(), gen.StListStar(), gen.StMultiList(gen.Field("n"), gen.Field("i"))), gen.Chain(wd(), gen.StSliceS("", "300", ""), gen.StField("n")), gen.Chain(wd(), gen.StListStar(), gen.StField("l"), gen.StFlatten()),
+		gen.Chain(wd(), gen.StIndex(0), gen.StStar()), gen.Func("sum", gen.Chain(wd(), gen.StListStar(), gen.StField("n"))), gen.Func("map", gen.ExpRef(gen.Field("i")), wd()), gen.Func("sort_by", wd(), gen.ExpRef(gen.Field("n"))),
+		gen.Func("length", gen.Chain(wd(), gen.StFilter(gen.Field("n")))), gen.Chain(wd(), gen.StListStar(), gen.StField("l"), gen.StListStar()),
+	}
 	nlh := tierPick(r, 60, 1200)
 	lsh := mon.Workload{Name: "long-search-histories", N: nlh, Batch: 2,
 		Do: func(i int, t *mon.Tally) {
 			rng := gen.DeriveN(r.Seed, "c13long", i)
 			tree := fixed[(i*13)%len(fixed)]
+			if i < len(wideExprs) {
+				tree = wideExprs[i] // projections over 400 elements: 3000 calls visit > 2^20 elements
+			}
 			expr := gen.Spell(tree)
 			jp, co := apiCompile(expr)
 			if co.Panicked || co.Err != nil {
@@ -349,6 +396,9 @@ func c13(r *mon.Run) {
 				return
 			}
 			pool := []interface{}{base, perturb(rng, base), perturb(rng, base), docs.NewRand(rng).TypedDoc(0), nil, []interface{}{}}
+			if i < len(wideExprs) {
+				pool = []interface{}{wideDoc, wideDoc, perturb(rng, wideDoc), wideDoc, nil, wideDoc}
+			}
 			first := make([]mon.Observed, len(pool))
 			res := make([]ref.Result, len(pool))
 			for d := range pool {
